@@ -23,6 +23,7 @@ func init() {
 			{ID: "C09.R4", Floor: 6, Doc: "routing key framing, component pairing and fresh storage", Run: c09r4},
 			{ID: "C09.R5", Floor: 14, Doc: "partitioners: Murmur3 -> Murmur3H1, numeric order; ordered -> key bytes", Run: c09r5},
 			{ID: "C09.R6", Floor: 4, Doc: "routingKeyInfo pairs index i with the i-th partition-key column and its type", Run: c09r6},
+			{ID: "C09.R7", Floor: 1, Doc: "Query.routingKey holds only a key the caller supplied: a key computed from the bound values is never stored there", Run: c09r7},
 		},
 		Variants: []Variant{{Name: "appengine", GOARCH: "amd64", Tags: "appengine"}},
 	})
